@@ -130,8 +130,12 @@ def make_probe(log):
         def __getitem__(self, key):
             log.append(('item', key))
             return SECRET
+
+    class PlainProbe:
+        """the same without an indexer of its own: `$o[NAME]` has nothing to reach"""
+        __getattribute__ = Probe.__getattribute__
     with H.NoTracing():
-        p = Probe()
+        p = PlainProbe() if NOITEM else Probe()
     del log[:]      # (CrossHair's constructor interception looks up __init__; not an access by yaql)
     return p
 
@@ -153,6 +157,7 @@ def access_expr(path, name):
 NAMES = ['a', 'ab', 'b', 'c', 'ca', '_a', '__d__', 'zz', 'zm', '{0.secret}', '{0[secret]}{0.__class__}', '%(secret)s']
 NAMEBOX = [(n,) for n in NAMES]
 PATH = H.P('path', 0)
+NOITEM = bool(H.P('noitem'))
 BOX16 = [(i,) for i in range(16)]
 MASKS = [(m,) for m in H.P('masks', [0, 1, 2, 4, 8])]
 
@@ -184,7 +189,7 @@ def access_core(name, path, wl, bl, sw, remap, yaqlized):
         elif path == 0 and remap and name == 'b':
             expect = []              # a (method, argument-mapping) remapping is not an attribute name: the access fails
         elif path == 2:
-            expect = [('item', name)]
+            expect = [] if NOITEM else [('item', name)]
         else:
             eff = name
             if remap and name == 'ab':
@@ -193,6 +198,11 @@ def access_core(name, path, wl, bl, sw, remap, yaqlized):
                 eff = 'zm'
             expect = [('attr', eff)] + ([('call', eff, ['kk'] if (remap and name == 'b') else ['k'])] if path == 1 else [])
     leaked = SECRET in text and not (path == 2 and expect)
+    if NOITEM and path == 2 and yaqlized and (sw & 1) and (sw & 4) and admitted(name, wl, bl) and not (
+            remap and name in ('zz', 'zm', 'b')):
+        # both the indexer and the attribute switch are on and the name is admitted: whether an index expression on an
+        # object without an indexer may fall back to the attribute is not fixed by the policy
+        return not leaked
     return log == expect and not leaked
 
 
@@ -451,6 +461,9 @@ def conditions(tier, seed):
                                   'menu %s' % (NAMES, forms[path], masks, MENU_DESC)})
         out.append({'name': 'access_switch[path=%d]' % path, 'func': 'access_switch', 'timeout': t, 'param': {'path': path},
                     'bounds': 'NAME from %r through %s; 3 yaqlization switches, remapping on/off, yaqlized or not' % (NAMES, forms[path])})
+    out.append({'name': 'access_switch[path=2,no-indexer]', 'func': 'access_switch', 'timeout': t, 'param': {'path': 2, 'noitem': True},
+                'bounds': 'NAME from %r through $o[NAME] on a host object without __getitem__; 3 yaqlization switches, remapping '
+                          'on/off, yaqlized or not: no member of the object is touched' % (NAMES,)})
     out.append({'name': 'auto_yaqlize_scope[class-policy]', 'func': 'auto_yaqlize_scope', 'timeout': 100, 'param': {'class_policy': True},
                 'bounds': 'as auto_yaqlize_scope, the returned object\'s class is itself yaqlized with a blacklist and indexing off: '
                           'the class policy must survive the auto-yaqlizing hop'})
